@@ -14,7 +14,7 @@ from ..cfg import CFG
 from ..core import AnalysisError, Repo, Report, call_name, calls_in, kwarg, module_const, norm, parents_map, walk_local
 from ..dataflow import DefUse
 from ..sites import guard_chain
-from .util import attr_stores, canon, cguards, cguards_any
+from .util import attr_stores, canon, cguards, cguards_any, stmt_of
 
 
 def _sigref_literals(f) -> list[tuple[str, ast.Call]]:
@@ -145,3 +145,42 @@ def run(repo: Repo, rep: Report, tier: str) -> None:
     rep.check(ok, "C02-R3", "a constant member is listed once (constant part only)", "`continue` after the constant store" if ok else "a constant member also reaches the computed list: it is emitted twice and summed on the wire", bl.loc(cs[0]) if cs else bl.loc())
     from .shared import bundle_literal_sibling_branches
     bundle_literal_sibling_branches(repo, rep, "C02-R3")
+
+    # ---------------- R4 ---------------------------------------------------------------
+    rep.rule("C02-R4", "the materialisation flag describes scalar constants only (bundle constants are always placed): outside the analyzer it is consulted only where the value is known to be "
+             "a scalar reference (`isinstance(ref, SignalRef)`) or together with `not op.signals`; otherwise the wires of an anonymous bundle literal are dropped and its members vanish")
+    n4 = 0
+    for f4 in repo.all_funcs():
+        if ".layout." not in f4.module.name + "." or (f4.cls is not None and f4.cls.name == "SignalAnalyzer"):
+            continue
+        for a4 in walk_local(f4.node):
+            if not (isinstance(a4, ast.Attribute) and a4.attr == "should_materialize" and isinstance(a4.ctx, ast.Load)):
+                continue
+            n4 += 1
+            st4 = stmt_of(f4, a4)
+            own = canon(f4).text(st4.test) if isinstance(st4, ast.If) else ""
+            gs4 = cguards(f4, st4)
+            scalar_only = any(pol and g.startswith("isinstance(") and g.endswith(", SignalRef)") for g, pol in gs4)
+            with_signals = "not op.signals" in own or ".signals" in own
+            rep.check(scalar_only or with_signals, "C02-R4", f"{f4.short}: should_materialize is consulted for a scalar reference only",
+                      "under isinstance(..., SignalRef)" if scalar_only else ("combined with the bundle test (op.signals)" if with_signals else
+                      "the value here can be a bundle: an anonymous bundle constant is flagged not-materialised although its combinator is always placed, so its wires are skipped"), f4.loc(a4))
+    rep.floor("C02-R4", "reads of the materialisation flag outside the analyzer", n4, 2)
+
+    # ---------------- R5 ---------------------------------------------------------------
+    rep.rule("C02-R5", "`(bundle CMP x) : out` always goes through the bundle decider with the program's comparator, bundle and comparison value: no path of the filter lowering returns "
+             "the input bundle itself (an `identity` shortcut ignores the output spec: `(b != 0) : 1` must yield ones, not the members' values)")
+    bf = repo.func("ExpressionLowerer._lower_bundle_filter_output_spec")
+    cbf = canon(bf)
+    rets5 = [n for n in walk_local(bf.node) if isinstance(n, ast.Return) and n.value is not None]
+    rep.floor("C02-R5", "returns of the bundle-filter lowering", len(rets5), 2)
+    for r5 in rets5:
+        for alt in cbf.alts(r5.value):
+            if alt.startswith("BundleRef(set(), "):
+                ok5 = any((not pol) and g.startswith("isinstance(") and g.endswith(", BundleRef)") for g, pol in cguards(bf, r5))
+                rep.check(ok5, "C02-R5", "the empty error bundle is returned only when the left side is not a bundle", alt[:60], bf.loc(r5))
+                continue
+            ok5 = alt.startswith("self.ir_builder.bundle_decider(") and "op=expr.condition.op" in alt and "bundle=self.lower_expr(expr.condition.left)" in alt \
+                and "compare_value=self.lower_expr(expr.condition.right)" in alt
+            rep.check(ok5, "C02-R5", "a bundle filter is lowered to bundle_decider(op, bundle, compare value) of the program's condition",
+                      alt[:110] if ok5 else f"returns `{alt[:90]}`: the filter (and its output spec) is skipped on this path", bf.loc(r5))
